@@ -715,7 +715,7 @@ def twin_of(prog):
     """pick a results name used by exactly one `name` statement without actions on it; returns (name, listall, twin program,
     is_group) or None.  The twin wraps the named element in Located: Located(e)("n") reports e's match under `value`."""
     # Located pre-parses whitespace itself: transparent only when no token can match a blank
-    if any(st[1] in ("CharsNotIn", "Combine") or (st[1] == "DelimitedList" and len(st) > 3 and st[3].get("combine")) or (st[1] in ("Literal", "Word", "Keyword", "CaselessLiteral") and " " in json.dumps(st[2:]))
+    if any(st[1] in ("CharsNotIn", "Combine", "SkipTo") or (st[1] == "DelimitedList" and len(st) > 3 and st[3].get("combine")) or (st[1] in ("Literal", "Word", "Keyword", "CaselessLiteral") and " " in json.dumps(st[2:]))
            for st in prog):
         return None
     names = [st for st in prog if st[1] == "name"]
